@@ -42,6 +42,9 @@ impl Ctx {
     /// request: (text (offset ...)) ; level 0 is against the resource, level k against the annotation of level k-1.
     /// per level two sub-cases: [annotate path] (1 b e text reports) | (0) | (9) | (2), [FindText::textselection path] (1 b e) | (0) | (9) | (2)
     pub fn exec(&self, req: &Sx) -> (Sx, Vec<Sx>, bool) {
+        if let Sx::A(7) = req.nth(0) {
+            return self.exec_pairs(req);
+        }
         let text = req.nth(0).string();
         let offsets: Vec<Offset> = req.nth(1).list().iter().map(offset_of).collect();
         let mut outs: Vec<Sx> = Vec::new();
@@ -133,6 +136,49 @@ impl Ctx {
     }
 }
 
+impl Ctx {
+    /// request (7 len): TextSelection::relative_offset called directly for EVERY pair of ranges
+    /// (b, e), (pb, pe) over a text of that length (embedded or not, overlapping, disjoint, either
+    /// side), in the four modes: one sub-case per pair = four reports (or (-1) for None, (2) for a panic)
+    fn exec_pairs(&self, req: &Sx) -> (Sx, Vec<Sx>, bool) {
+        let len = req.nth(1).int() as usize;
+        let text: String = std::iter::repeat('x').take(len).collect();
+        let store = AnnotationStore::default().with_id("c04p").with_resource(TextResourceBuilder::new().with_id("r").with_text(text)).unwrap();
+        let res = store.resource("r").unwrap();
+        let mut outs = Vec::new();
+        for b in 0..=len {
+            for e in b..=len {
+                for pb in 0..=len {
+                    for pe in pb..=len {
+                        let mut reports = Vec::new();
+                        for m in MODES.iter() {
+                            let r = guard(|| {
+                                let t = res.textselection(&Offset::simple(b, e)).unwrap();
+                                let c = res.textselection(&Offset::simple(pb, pe)).unwrap();
+                                t.inner().relative_offset(c.inner(), *m).map(|ro| {
+                                    let rr = c.textselection(&ro).ok().map(|t| (t.begin() as i64, t.end() as i64)).unwrap_or((-1, -1));
+                                    (ro, rr)
+                                })
+                            });
+                            reports.push(match r {
+                                None => l(vec![a(2)]),
+                                Some(None) => l(vec![a(-1)]),
+                                Some(Some((ro, (rb, re)))) => {
+                                    let (bk, bv) = cursor_sx(&ro.begin);
+                                    let (ek, ev) = cursor_sx(&ro.end);
+                                    l(vec![bk, bv, ek, ev, a(rb), a(re)])
+                                }
+                            });
+                        }
+                        outs.push(l(reports));
+                    }
+                }
+            }
+        }
+        (req.clone(), outs, true)
+    }
+}
+
 fn all_cursors(range: i64) -> Vec<Sx> {
     let mut v = Vec::new();
     for n in 0..=range {
@@ -160,6 +206,10 @@ pub fn generate(out: &mut Out, tier: &str, seed: u64) {
     };
     let range = if thorough { 9 } else { 7 };
     let cursors = all_cursors(range);
+    // relative_offset on every pair of ranges, embedded or not
+    for len in 0..=(if thorough { 9 } else { 6 }) {
+        emit(out, l(vec![a(7), a(len)]), "all_pairs_of_ranges");
+    }
     // depth 1: every pair of cursors
     for t in &texts {
         for cb in &cursors {
